@@ -242,8 +242,23 @@ func (matrix *DenseInt64Matrix) Tip() {
   matrix.rowOffset, matrix.colOffset = matrix.colOffset, matrix.rowOffset
   matrix.rowMax, matrix.colMax = matrix.colMax, matrix.rowMax
 }
+func (matrix *DenseInt64Matrix) asVector() DenseInt64Vector {
+  if matrix.rows != matrix.rowMax || matrix.cols != matrix.colMax {
+    // sliced matrix: collect the elements of the slice
+    n, m := matrix.Dims()
+    v := make([]int64, n*m)
+    for i := 0; i < n; i++ {
+      for j := 0; j < m; j++ {
+        v[i*m + j] = matrix.values[matrix.index(i, j)]
+      }
+    }
+    return DenseInt64Vector(v)
+  } else {
+    return DenseInt64Vector(matrix.values)
+  }
+}
 func (matrix *DenseInt64Matrix) AsVector() Vector {
-  return DenseInt64Vector(matrix.values)
+  return matrix.asVector()
 }
 func (matrix *DenseInt64Matrix) storageLocation() uintptr {
   return uintptr(unsafe.Pointer(&matrix.values[0]))
@@ -332,7 +347,7 @@ func (matrix *DenseInt64Matrix) IsSymmetric(epsilon float64) bool {
   return true
 }
 func (matrix *DenseInt64Matrix) AsConstVector() ConstVector {
-  return DenseInt64Vector(matrix.values)
+  return matrix.asVector()
 }
 /* implement ScalarContainer
  * -------------------------------------------------------------------------- */
